@@ -14,9 +14,9 @@
 (*            five tags in three spellings, platform, media type list,       *)
 (*            backup shape, switches, parallel 0-4, populations of four      *)
 (*            source repositories, 2-4 runs of any mode with source tags     *)
-(*            moved, deleted and moved back in between; `page` is the page   *)
-(*            size of the model registries' listings (0 = one page), which   *)
-(*            the design does not look at                                    *)
+(*            moved, deleted and moved back in between                       *)
+(* Both add `env`, the environment of the runs (EnvDraw), which the design  *)
+(* does not look at.                                                        *)
 (* Random draws are taken in one step into the variable `draws` (explicit   *)
 (* values) and the scenario is built from that variable in the next step,   *)
 (* so that every draw is used exactly as stored.                            *)
@@ -32,15 +32,26 @@ W(s) == s[RandomElement(1..Len(s))]           \* weighted choice: repeat an elem
 OrdSubs == {s \in UNION {[1..n -> T5] : n \in 0..3} : \A i, j \in DOMAIN s : i # j => s[i] # s[j]}
 ROrdSubs == {s \in UNION {[1..n -> {"r1", "r10", "r2", "xr2"}] : n \in 0..3} : \A i, j \in DOMAIN s : i # j => s[i] # s[j]}
 Styles == <<"alt", "group", "group", "class", "class">>
-ImgW == <<"", "", "A", "A", "B", "C", "X", "X", "Y", "Xa">>
-TgtW == <<"", "", "same", "same", "same", "A", "B", "C", "X", "Xa">>
+ImgW == <<"", "", "", "A", "A", "B", "C", "X", "X", "Y", "Xa", "H", "H", "D">>
+TgtW == <<"", "", "", "same", "same", "same", "same", "A", "B", "C", "X", "Xa", "H", "D">>
 T5s == <<"v1", "v10", "xv2", "v2", "latest">>
 Grid == <<"r1", "r2", "r10", "xr2">>
+
+\* the environment of a run, which the design does not look at: page size of the registries'
+\* listings, which registries omit Docker-Content-Digest (regclient then falls back from HEAD to
+\* GET), blob mount / single POST upload support of the registries, regclient's cache and chunked
+\* upload settings in the configuration, registries named by address or by alias + hostname, log
+\* level / format, configuration read from stdin, source rate limit headers with ratelimit.min
+EnvDraw(z) ==
+  [page |-> W(<<0, 0, 0, 1, 2>>), nodig |-> W(<<"", "", "", "src", "tgt", "both">>), mount |-> W(<<TRUE, TRUE, FALSE>>),
+   postput |-> W(<<TRUE, TRUE, FALSE>>), cache |-> W(<<FALSE, FALSE, TRUE>>), chunk |-> W(<<FALSE, FALSE, TRUE>>),
+   direct |-> W(<<FALSE, FALSE, TRUE>>), verb |-> W(<<"info", "info", "debug", "trace", "warn">>), json |-> W(<<FALSE, FALSE, TRUE>>),
+   stdin |-> W(<<FALSE, FALSE, TRUE>>), rl |-> W(<<FALSE, FALSE, TRUE>>)]
 
 \* one explicit record of independent draws (z makes the definition state dependent: TLC would
 \* otherwise evaluate it once when it starts)
 Draw(z) ==
-  [layout |-> RandomElement(1..8), par |-> RandomElement(0..4), page |-> W(<<0, 0, 0, 1, 2>>),
+  [layout |-> RandomElement(1..8), par |-> RandomElement(0..4), env |-> EnvDraw(z),
    t1 |-> RandomElement(1..5), t2 |-> RandomElement(1..4),
    flt |-> TLCEval([i \in 1..18 |-> [tags |-> RandomElement(OrdSubs), style |-> W(Styles)]]),
    rflt |-> TLCEval([i \in 1..2 |-> [tags |-> RandomElement(ROrdSubs), style |-> W(<<"alt", "group", "class">>)]]),
@@ -119,7 +130,7 @@ Build(d) == Scn(Conf(d.par, Dedup(Entries(d))), SrcSet(d) \cup MirPop(d), TgtSet
 GInit == Init /\ draws = <<>> /\ drawn = FALSE /\ scn = <<>> /\ hist = <<>>
 GDraw == /\ phase = "setup" /\ ~drawn
          /\ draws' = IF GenMode = "space"
-                     THEN [a |-> RandomElement(0..999999), b |-> RandomElement(0..999999), z |-> nrun]
+                     THEN [a |-> RandomElement(0..999999), b |-> RandomElement(0..999999), env |-> EnvDraw(nrun)]
                      ELSE Draw(nrun)
          /\ drawn' = TRUE
          /\ UNCHANGED <<vars, scn, hist>>
@@ -128,7 +139,7 @@ GSetup == /\ phase = "setup" /\ drawn
                  s == IF GenMode = "space" THEN ScnSeqs[i][(draws.b % Len(ScnSeqs[i])) + 1] ELSE Build(draws) IN
              Load(s) /\ scn' = s
           /\ UNCHANGED <<draws, drawn, hist>>
-TgtSide == {<<x[1], x[2], x[3], x[4]>> : x \in {y \in world : y[1] # "src"}}
+TgtSide == {x \in world : x[1] # "src" \/ x[2] \in MirrorRepos}
 GEnd == /\ EndRun
         /\ hist' = Append(hist, [mode |-> mode, exit |-> IF errs = {} THEN 0 ELSE 1, nw |-> nw, tags |-> TgtSide])
         /\ UNCHANGED <<draws, drawn, scn>>
@@ -137,5 +148,5 @@ GNext == \/ GDraw \/ GSetup \/ GEnd
             /\ UNCHANGED <<draws, drawn, scn, hist>>
 GSpec == GInit /\ [][GNext]_gvars
 Emit == Finished => PrintT(<<"SCN", ToJson([conf |-> scn.conf, src |-> scn.src, tgt |-> scn.tgt, steps |-> scn.plan, pred |-> hist,
-                                                page |-> IF GenMode = "rand" THEN draws.page ELSE 0])>>)
+                                                env |-> draws.env])>>)
 =============================================================================
